@@ -28,7 +28,7 @@ def f32(x):
 
 
 AXES = dict(
-    n=[16, 8, 15], shift=[(2, -1), (0, 0), (2, 0), (0, -1)], fill=[[1e-3], [1e-3, 2e-3], [1e-3, 0, 2e-3]], outstep=[2, 1, 3, 5], save=[1, 0, 2],
+    n=[16, 8, 15], shift=[(2, -1), (0, 0), (2, 0), (0, -1)], fill=[[1e-3], [1e-3, 2e-3], [1e-3, 0, 2e-3], [1e-3, 0]], outstep=[2, 1, 3, 5], save=[1, 0, 2],
     rot=[1.0, 0.5, 1.375, 1.3, 0.7], imp=["collimator", "none", "csr"], track=[False, True], renorm=[0, -1, 2],
     ring=["default", "R=5.559,H=184,V=1.4e6,E=2.5e9", "pq=10,F=2.7e6"],
     # how the run starts: the built-in Gaussian, a results file written beforehand, the same without any renormalisation
@@ -220,13 +220,13 @@ def check_file(res, case, key, doc, c, rp):
         # the transform length N: the file stores the N/2 non-negative-frequency samples, so N is 2*len - or 2*len+1 when the padding is taken literally
         # (RoundPadding=false) and comes out odd; the launched padding decides for a single bunch
         N = 2 * len(zr)
-        if "RoundPadding=false" in str(c.get("padding", 2)) and nb == 1 and math.ceil(n * float(str(c["padding"]).split("|")[0]) - 1e-9) == N + 1:
+        if "RoundPadding=false" in str(c.get("padding", 2)) and len(c["fill"]) == 1 and math.ceil(n * float(str(c["padding"]).split("|")[0]) - 1e-9) == N + 1:
             N += 1
         buckets = D["/Info/BucketNumbers"]["data"]
         spacing = round(n * d["spacing_ps"]) if len(c["fill"]) > 1 else 0
         wk = pl.rows(doc, "/WakePotential/data")
         # a train padded literally: the file does not tell whether the length is 2*len or 2*len+1 - the stored wake is the convolution for one of the two
-        Ncands = [N, N + 1] if ("RoundPadding=false" in str(c.get("padding", 2)) and nb > 1) else [N]
+        Ncands = [N, N + 1] if ("RoundPadding=false" in str(c.get("padding", 2)) and len(c["fill"]) > 1) else [N]     # (a train: several buckets, however many of them are filled)
         for it in range(nrec):
             train = {}
             for b in range(nb):
